@@ -138,6 +138,10 @@ func (g *Gen) checkProtectedAccess(st *State, p PtrV) {
 	if first.Idx != "" {
 		return
 	}
+	if st.unpub[p.Ref] {
+		// initialisation of an object this path allocated and has not handed to anyone: no other goroutine can hold it
+		return
+	}
 	for _, mon := range g.W.monitors {
 		if typeKeyOfMonitor(mon) != p.RootKey {
 			continue
@@ -173,4 +177,60 @@ func (g *Gen) heldKeyOfExpr(ctx *specCtx, e Expr) string {
 		g.unsupported("held(): no monitor declared for " + nk + "." + sel.F)
 	}
 	return g.monKey(PtrV{RootKey: base.RootKey, Ref: base.Ref, Idx: base.Idx}, mon)
+}
+
+// publish: v is handed to a call, stored into shared memory, sent, captured: every object it points to may now be
+// reachable by other goroutines (the monitor rule applies to it from here on).
+func (g *Gen) publish(st *State, v Val) {
+	if st == nil || len(st.unpub) == 0 || v == nil {
+		return
+	}
+	switch x := v.(type) {
+	case PtrV:
+		if x.Cell == nil {
+			delete(st.unpub, x.Ref)
+		}
+	case SliceV:
+		delete(st.unpub, x.Ref)
+	case StructV:
+		for _, f := range x.F {
+			g.publish(st, f)
+		}
+	case TupleV:
+		for _, f := range x.E {
+			g.publish(st, f)
+		}
+	case IfaceV:
+		if x.Conc != nil {
+			g.publish(st, x.Conc)
+			return
+		}
+		for k := range st.unpub {
+			delete(st.unpub, k)
+		}
+	case FuncV:
+		for _, b := range x.Binds {
+			g.publish(st, b)
+		}
+		if x.Fn == nil {
+			for k := range st.unpub {
+				delete(st.unpub, k)
+			}
+		}
+	case ArrV:
+		// conservatively: an array of pointer-holding elements may hold anything
+		if x.N > 0 && !isScalarType(x.Elem) {
+			for k := range st.unpub {
+				delete(st.unpub, k)
+			}
+		}
+	}
+}
+
+func isScalarType(t types.Type) bool {
+	switch u := t.Underlying().(type) {
+	case *types.Basic:
+		return u.Kind() != types.UnsafePointer
+	}
+	return false
 }
